@@ -123,6 +123,7 @@ func init() {
 			out = append(out, Instance{Scenario: "c10_register", Params: mustJSON(struct{}{}), Bound: 0, Note: "real RPC client / handler code over an in-memory transport: registration, death, restart under the same name before / after the leader's next round"})
 			out = append(out, Instance{Scenario: "c10_first", Params: mustJSON(FirstParams{Inject: true}), Bound: 0, Note: "first numbering injected at every scheduling point of the first GetInfo()"})
 			out = append(out, Instance{Scenario: "c10_first", Params: mustJSON(FirstParams{Two: true}), Bound: 0, Note: "two numberings announced before the first GetInfo(): the latest one is returned"})
+			out = append(out, Instance{Scenario: "c10_first", Params: mustJSON(FirstParams{BackToBack: true}), Bound: 2, Note: "two numberings announced back to back: every schedule of the bus' delivery threads ends with the latest"})
 			out = append(out, Instance{Scenario: "c10_first", Params: mustJSON(FirstParams{}), Bound: 3, Note: "first numbering vs first GetInfo(), every schedule with <=3 deviations"})
 			return out
 		},
@@ -584,8 +585,9 @@ func init() {
 // bound, every interleaving of caller, publisher and bus handler is explored); the caller must obtain exactly
 // the announced numbering within bounded time, and a later renumbering must replace it.
 type FirstParams struct {
-	Inject bool `json:"inject"`
-	Two    bool `json:"two"` // two announcements before the first GetInfo()
+	Inject     bool `json:"inject"`
+	Two        bool `json:"two"` // two announcements before the first GetInfo()
+	BackToBack bool `json:"back_to_back"`
 }
 
 func init() {
@@ -637,6 +639,36 @@ func firstInfoMain(p FirstParams) {
 			vrt.Failf("%s membership: a second GetInfo() returned %d/%d, the latest numbering is 1/2", name, again.MemberNumber, again.TotalMembers)
 		}
 		vrt.SetOutcome(name + " two-before-first")
+		return
+	}
+	if p.BackToBack {
+		// two numberings are announced back to back (Publish, Publish - nobody waits in between) while nobody
+		// or somebody is asking: whatever the schedule of the bus' delivery threads, the membership ends with
+		// the numbering announced LAST
+		waiting := vrt.Choose(2, true, "a-GetInfo-is-waiting") == 1
+		if waiting {
+			vrt.GoNamed("waiter", func() {
+				got = m.GetInfo()
+				returned = true
+			})
+			vrt.Quiesce()
+		}
+		vrt.Window(true)
+		vrt.GoNamed("publisher", func() {
+			bus.Publish(helpers.MembershipChangedBusEventName, first)
+			bus.Publish(helpers.MembershipChangedBusEventName, &membership.Model{MemberNumber: 1, TotalMembers: 2})
+			bus.WaitAsync()
+		})
+		vrt.Sleep(time.Minute)
+		vrt.Window(false)
+		vrt.Quiesce()
+		if waiting && !returned {
+			vrt.Failf("%s membership: 2/3 and 1/2 were announced back to back, the waiting GetInfo() never returned; blocked: %v", name, vrt.BlockedThreads())
+		}
+		if i := m.GetInfo(); i.MemberNumber != 1 || i.TotalMembers != 2 {
+			vrt.Failf("%s membership: 2/3 and then 1/2 were announced back to back; GetInfo() now reports %d/%d (the superseded numbering): the member keeps a vBucket set derived from a numbering that is no longer in effect", name, i.MemberNumber, i.TotalMembers)
+		}
+		vrt.SetOutcome(fmt.Sprintf("%s back-to-back waiting=%v", name, waiting))
 		return
 	}
 	if p.Inject {
